@@ -101,6 +101,22 @@ def check(spec, ctx):
         ctx.label("save_under_foreign_dir_accepted(no recording)")
     except Exception:  # noqa: BLE001 - rejection is the expected outcome here (C18 decides it)
         ctx.label("rejected_save_then_save")
+    recs_ = graphs.walk(obj)["recording_objects"]
+    if kw and recs_:
+        # ... and so does a save that fails late: ONE recording (a different one from case to case - sometimes one that is only reached
+        # through a sequence, a note's author or a match) lies outside the audio directory while the save runs, and is put back afterwards
+        import zlib
+
+        victim = recs_[zlib.crc32(json.dumps(spec["top"], sort_keys=True, default=str).encode()) % len(recs_)]
+        old_path = victim.path
+        victim.path = Path(d) / "elsewhere" / Path(str(old_path)).name
+        try:
+            io.save(obj, path_b, **kw)
+            ctx.label("save_with_one_outside_recording_accepted")
+        except Exception:  # noqa: BLE001 - rejection is the expected outcome (C18 decides it)
+            ctx.label("late_rejected_save_then_save")
+        finally:
+            victim.path = old_path
     ctx.call(spec, f"io.save({spec['ctype']}) after a rejected save", io.save, obj, path, **kw)
     with open(path) as fh:
         again = json.load(fh)["data"]
